@@ -31,7 +31,9 @@ RULE = ('cases: random supports on shapes 2..10, partitions into 1..9 segments (
         'monolithic, then propagate_dft with random per-axis sampling (mixed Tilt/segmented chains also with an output mask and single-sample windows); plane objects re-used after setters/copy and rescaled/resampled (oracle-only); an extremes stream (physical units with per-segment OPD classes incl. nanometres, apertures of 1030..2600 rows vs bands <= 1024 rows; 5 % of quick/thorough, half of the failing-input search); plus 3..5 tilted segments (OPD ramps fitted by fit_tilt) propagated with prop_shape < shape so that the per-segment output fields overlap as chains, oversampling 1..3, output shape and prop_shape; exact stream '
         '(no propagation, Gaussian-integer data) and float stream. distinct = canonical (shapes, partition, attribute kinds, propagation '
         'setting) signature; non-trivial = some plane has at least two segments')
-TRUSTED = ['NumPy slicing/broadcasting in Plane.multiply and util.boundary (modelled by hand in Model/Plane.lean)',
+TRUSTED = ['the bounding box of propagate_dft\'s output mask is computed by the harness (lentil.boundary rule) and handed to the model; _mask_shape/_mask_shift are C02\'s',
+           'the propagation models of C02 (propagateDft, generated window) and C09 (propagateFft) that the end-to-end theorems compose',
+           'NumPy slicing/broadcasting in Plane.multiply and util.boundary (modelled by hand in Model/Plane.lean)',
            'np.dot / einsum in fourier.dft2 compute the sums of products (Model/Fourier.lean; C01 checks dft2 itself)',
            'np.exp(1j*t) = cos t + i sin t']
 UNPROVEN = [
@@ -39,7 +41,8 @@ UNPROVEN = [
             'the end-to-end theorems start from a fresh wavefront and use planes with array masks (scalar-mask planes inside the chain: plane_multiply_total only)',
             'planes re-used after the amplitude/OPD setters and copy(), and rescaled/resampled planes (bounding slices of the new mask): oracle only; the interpolation itself is C17',
             'partitions containing a segment (or producing an intermediate field) with exactly one element (known finding KF-C03-one-pixel-segment)']
-ASSUMPTIONS = ['rescaled/resampled planes are judged only when Plane.rescale returns: for small segments the order-0 rescaled mask can lose a layer and rescale then raises IndexError in _plane_slice (C17; reported)',
+ASSUMPTIONS = ['a partition into k = 1 segment is given as the 2-D mask: a 3-D mask with a single layer makes Plane.multiply raise ValueError on the unchanged tree (reported with a candidate fix /tmp/wC/fix_single_layer.diff; single-layer cases are parked on branch wC-single-layer)',
+               'rescaled/resampled planes are judged only when Plane.rescale returns: for small segments the order-0 rescaled mask can lose a layer and rescale then raises IndexError in _plane_slice (C17; reported)',
                'every segment bounding box and every intersection of boxes along the chain has more than one element (ExtOK: a condition on the bounding slices and shapes of the input, used by segmented_eq_monolithic_end_to_end)',
                'segment masks of one plane have pairwise disjoint supports']
 
@@ -347,7 +350,13 @@ def _run(c, planes):
         p = c['prop']
         w2 = lentil.propagate_dft(w, pixelscale=tuple(p['du']), shape=tuple(p['shape']),
                                   prop_shape=None if p['prop_shape'] is None else tuple(p['prop_shape']), oversample=p['os'])
+        # the same propagated wavefront is read several times, in different orders (broadband / detector loops do this):
+        # intensity, field, intensity, insert twice — every read must give the same answer
+        i1 = H7.arr_out(w2.intensity, mode)
         o['field'] = H7.arr_out(w2.field, mode); o['intensity'] = H7.arr_out(w2.intensity, mode); o['nout'] = len(w2.data)
+        a1 = H7.arr_out(w2.insert(np.zeros(w2.shape), 1), mode); a2 = H7.arr_out(w2.insert(np.zeros(w2.shape), 1), mode)
+        f2 = H7.arr_out(w2.field, mode)
+        o['reread_same'] = (i1 == o['intensity'] and a1 == a2 and f2 == o['field'] and a1['re'] == o['intensity']['re'])
     return o
 
 def _chip(f):
@@ -658,9 +667,13 @@ def oracle(c, io):
         return f'monolithic field after the chain is not the product of amplitude * exp(2 pi i opd/lambda) over the planes (max {np.max(np.abs(got - want)):.3g})'
     # coherent addition: the intensity is the squared modulus of the summed complex amplitudes
     for name, r in (('segmented', s), ('monolithic', m)):
+        if r['pre'].get('reread_same') is False: return f'{name}: reading intensity/field again on the same wavefront gave different values'
         f = H7._np_arr(r['pre']['field'])
         if not H7._close(H7._np_arr(r['pre']['intensity']), H7._nsq(f), mode, _scale(c, 'intensity', True)): return f'{name}: intensity != |field|^2 before propagation'
     if 'prop' in c:
+        for name, r in (('segmented', s), ('monolithic', m)):
+            if r.get('reread_same') is False:
+                return f'{name}: reading field / intensity / insert repeatedly on the same propagated wavefront gave different values (a view modified Wavefront.data)'
         for key in ('field', 'intensity'):
             x, y = H7._np_arr(s[key]), H7._np_arr(m[key])
             if not H7._close(x, y, mode, _scale(c, key)):
